@@ -210,7 +210,9 @@ def linkValidate (ctrlRoute : String) (m : Method) : List Diag :=
   let route := ((m.annots.filter (·.name = "Route")).head?.map (·.value)).getD ""
   let urlParams := extractUrlParams ctrlRoute ++ extractUrlParams route
   let pathAttrs := m.annots.filter (·.name = "Path")
-  let funcParams := m.params.map (·.name)
+  -- the parameters an annotation can bind: the request context is not one of them (`getReceiverParamsNameSet`, fix for
+  -- C10-F6)
+  let funcParams := (m.params.filter fun p => !isContextType p.type).map (·.name)
   -- 1. route
   let badAlias := pathAttrs.filter fun a => aliasOf a = .bad
   let d1 : List Diag :=
